@@ -221,6 +221,21 @@ def handle(cmd, args):
         return 'true'
     if cmd in ('rule-mp', 'rule-gen', 'rule-inst'):
         return rule(cmd, args)
+    if cmd == 'track':
+        from harness.py import py_track
+        return py_track.track(args)
+    if cmd == 'deser':
+        from harness.py import py_track
+        return py_track.deser(args)
+    if cmd == 'deser-x':
+        from harness.py import py_track
+        return py_track.deser(args, True)
+    if cmd == 'track-x':
+        from harness.py import py_track
+        return py_track.track_x(args)
+    if cmd == 'track-trace':
+        from harness.py import py_track
+        return py_track.track_trace(args)
     if cmd == 'pretty':
         from harness.py import notation_table
         tab = [n for _, n in notation_table.table()]
